@@ -19,7 +19,8 @@ SchemaConf(T, v) == CASE T = "int"     -> v \in {"i5", "i0", "im1"}
                       [] T = "bool"    -> v = "true"
                       [] T = "intlist" -> v = "a_12"
 \* type annotations: int, str, bool, Optional[int], List[int]: "yes" (already of the type), "no" (cannot be), "co" (convertible: don't-care)
-PydTypes == {"int", "str", "bool", "optint", "intlist", "model", "modellist"}    \* model: a pydantic model class with one field x : int
+PydTypes == {"int", "str", "bool", "optint", "intlist", "model", "modellist", "float", "dictint", "enum"}
+\* model: a pydantic model class with one field x : int; dictint: Dict[str, int]; enum: an Enum class with the values "abc" and "5"
 PydConf(T, v) == CASE T = "int"     -> IF v \in {"i5", "i0", "im1"} THEN "yes" ELSE IF v \in {"s_abc", "s_x", "null", "a_12", "a_a", "o_k1", "o_x1", "a_ox1"} THEN "no" ELSE "co"
                    [] T = "optint"  -> IF v \in {"i5", "i0", "im1", "null"} THEN "yes" ELSE IF v \in {"s_abc", "s_x", "a_12", "a_a", "o_k1", "o_x1", "a_ox1"} THEN "no" ELSE "co"
                    [] T = "str"     -> IF v \in {"s_abc", "s_5", "s_x"} THEN "yes" ELSE IF v \in {"null", "a_12", "a_a", "o_k1", "o_x1", "a_ox1"} THEN "no" ELSE "co"
@@ -28,15 +29,20 @@ PydConf(T, v) == CASE T = "int"     -> IF v \in {"i5", "i0", "im1"} THEN "yes" E
                    \* a JSON object is never an instance of the model class already: it must be converted ("co") or is not convertible ("no")
                    [] T = "model"     -> IF v = "o_x1" THEN "co" ELSE "no"
                    [] T = "modellist" -> IF v = "a_ox1" THEN "co" ELSE "no"
+                   \* an integer is acceptable where a float is annotated, but it is converted (5 -> 5.0) when coercion is on: "co"
+                   [] T = "float"     -> IF v = "f1_5" THEN "yes" ELSE IF v \in {"i5", "i0", "im1", "s_5", "true"} THEN "co" ELSE "no"
+                   [] T = "dictint"   -> IF v \in {"o_k1", "o_x1"} THEN "yes" ELSE "no"
+                   \* a string is never an enumeration member already: it names one ("co") or does not ("no")
+                   [] T = "enum"      -> IF v \in {"s_abc", "s_5"} THEN "co" ELSE "no"
 
 \* scn.vsrc: "fresh" = a validator object of its own; "shared" = one process-wide validator object decorating many methods with
 \* per-method arguments; "shared_default" = that shared object's validator-level default schema.  A validator carries no
 \* state from call to call, so vsrc never appears in the rules below.
 VARIABLES scn,       \* [validator, vsrc, params : Seq([type, dflt]), extra \in {"none","ctx","dep"}, passing, vals : Seq(value | "omit"),
-                     \*  setextra : BOOLEAN]   -- parameters are named p1, p2; the excluded one "ctx" / "dep"
+                     \*  setextra : BOOLEAN]   -- parameters are named p1, p2, p3; the excluded one "ctx" / "dep"
           pc, received, reply
 vars == <<scn, pc, received, reply>>
-NoRecv == [ran |-> FALSE, p1 |-> "na", p2 |-> "na", extra |-> "na"]
+NoRecv == [ran |-> FALSE, p1 |-> "na", p2 |-> "na", p3 |-> "na", extra |-> "na"]
 InitWith(s) == scn = s /\ pc = "recv" /\ received = NoRecv /\ reply = "none"
 
 N == Len(scn.params)
@@ -56,17 +62,18 @@ Verdict == IF ~BindOk \/ SomeNo \/ ~SchemaRequiredOk THEN "reject" ELSE IF AllYe
 \* what the body receives: the caller's values unchanged (or converted where the don't-care region applies), defaults, server-side extras
 ExpectedVal(j) == IF j > N THEN "na" ELSE IF Provided(j) THEN scn.vals[j] ELSE "DEFAULT"
 ExpectedExtra == CASE scn.extra = "ctx" -> "CTX" [] scn.extra = "dep" -> "DEFAULT" [] OTHER -> "na"
-Expected == [ran |-> TRUE, p1 |-> ExpectedVal(1), p2 |-> ExpectedVal(2), extra |-> ExpectedExtra]
+Expected == [ran |-> TRUE, p1 |-> ExpectedVal(1), p2 |-> ExpectedVal(2), p3 |-> ExpectedVal(3), extra |-> ExpectedExtra]
 TypeOfParam(j) == scn.params[j].type
 TypeClass(T) == CASE T \in {"int", "optint"} -> "t_int" [] T = "str" -> "t_str" [] T = "bool" -> "t_bool" [] T = "model" -> "t_model"
-                  [] T = "modellist" -> "t_modellist" [] OTHER -> "t_list"
+                  [] T = "modellist" -> "t_modellist" [] T = "float" -> "t_float" [] T = "enum" -> "t_enum" [] T = "dictint" -> "t_dict"
+                  [] OTHER -> "t_list"
 \* with coercion on a convertible value arrives CONVERTED to the annotated type, with coercion off as sent - never anything else
 Convertible(j) == j <= N /\ Provided(j) /\ scn.validator # "schema" /\ Conf(j) = "co"
 OkValue(j, v) == \/ v = ExpectedVal(j) /\ ~(Convertible(j) /\ scn.validator = "pyd_coerce")
                  \/ /\ Verdict = "dontcare" /\ j <= N /\ Provided(j) /\ Conf(j) = "co" /\ scn.validator = "pyd_coerce"
                     /\ \/ v \in Values /\ PydConf(TypeOfParam(j), v) = "yes"               \* converted to the annotated type
                        \/ v = TypeClass(TypeOfParam(j))                                  \* ... to a value outside the alphabet, of that type
-ReceivedOk(r) == r.ran /\ OkValue(1, r.p1) /\ OkValue(2, r.p2) /\ r.extra = ExpectedExtra
+ReceivedOk(r) == r.ran /\ OkValue(1, r.p1) /\ OkValue(2, r.p2) /\ OkValue(3, r.p3) /\ r.extra = ExpectedExtra
 
 Exec(r) == /\ pc = "recv" /\ Verdict \in {"accept", "dontcare"} /\ ReceivedOk(r)
            /\ received' = r /\ pc' = "ran" /\ UNCHANGED <<scn, reply>>
